@@ -5,7 +5,7 @@ from __future__ import annotations
 import ast
 
 from ..cfg import CFG, calls_at
-from ..loader import AnalysisError, Repo, body_nodoc, dotted, norm, walk_no_nested, enclosing, qualname
+from ..loader import expand_aliases, AnalysisError, Repo, body_nodoc, dotted, norm, walk_no_nested, enclosing, qualname
 from ..report import Report
 
 LEVEL = "other"
@@ -51,6 +51,7 @@ def run(repo: Repo, rep: Report, tier: str) -> None:
     # ---- comparison ----------------------------------------------------------------
     cmp = t.ast.test
     ok = isinstance(cmp, ast.Compare) and len(cmp.ops) == 1
+    _XA = lambda x_: expand_aliases(acse.classes.get("ACSE"), x_)  # noqa: E731
     count_var = None
     count_comp = None  # the comprehension that enumerates what is counted
 
@@ -84,9 +85,9 @@ def run(repo: Repo, rep: Report, tier: str) -> None:
     counted = None
     if ok:
         l, r, op = cmp.left, cmp.comparators[0], cmp.ops[0]
-        if isinstance(op, ast.Gt) and norm(r) == "self.assoc.ae.maximum_associations":
+        if isinstance(op, ast.Gt) and _XA(norm(r)) == _XA("self.assoc.ae.maximum_associations"):
             counted = _counted(l)
-        elif isinstance(op, ast.Lt) and norm(l) == "self.assoc.ae.maximum_associations":
+        elif isinstance(op, ast.Lt) and _XA(norm(l)) == _XA("self.assoc.ae.maximum_associations"):
             counted = _counted(r)
     if counted is not None:
         count_var, count_comp, _cd = counted
@@ -103,7 +104,7 @@ def run(repo: Repo, rep: Report, tier: str) -> None:
         if okp:
             lc = count_comp
             g = lc.generators[0]
-            okp = norm(g.iter) == "self.assoc.ae.active_associations" and len(g.ifs) == 1 and norm(g.ifs[0]) == f"{norm(g.target)}.is_acceptor" and (norm(lc.elt) == norm(g.target) or (isinstance(lc.elt, ast.Constant) and lc.elt.value == 1)) and len(lc.generators) == 1
+            okp = _XA(norm(g.iter)) == _XA("self.assoc.ae.active_associations") and len(g.ifs) == 1 and norm(g.ifs[0]) == f"{norm(g.target)}.is_acceptor" and (norm(lc.elt) == norm(g.target) or (isinstance(lc.elt, ast.Constant) and lc.elt.value == 1)) and len(lc.generators) == 1
         rep.check(okp, "population", fq, defs[0] if defs else count_var, "the count must be over *all* acceptor associations of the AE that are alive (established or not): counting only established ones lets concurrent negotiations all pass", mod=acse, node=(defs[0] if defs else fn))
         if defs:
             dn = cfg.node_of(defs[0])
